@@ -6,6 +6,7 @@ import (
 	"errors"
 	"fmt"
 	"net"
+	"os"
 	"sort"
 	"strconv"
 	"strings"
@@ -922,8 +923,8 @@ func TestC36(t *testing.T) {
 
 	// ---- A. directed scenarios (each is also the minimal form of a finding of the random part)
 	t.Run("directed", func(t *testing.T) {
-		if r.Shard != 0 {
-			return
+		if r.Shard != 0 || os.Getenv("VERIF_RAPID_FAILFILE") != "" {
+			return // one shard runs them; a rapid replay goes straight to the recorded case
 		}
 
 		slow := func(burst, id int) c36Rule { return c36Rule{Kind: "bd", Burst: burst, Ms: 60000 + id} }
